@@ -5,6 +5,8 @@ forked both ways)."""
 from facts import *
 
 BOX_FIELDS = {"0", "pointer"}
+PURE_GETTERS = re.compile(r"^context::Context::config$")
+PURE_PREDICATES = re.compile(r"^context::Context::should_(omit_string_parens|omit_table_parens|collapse_simple_functions|collapse_simple_conditionals)$|^shape::Shape::using_simple_heuristics$")
 
 
 class TooManyPaths(Exception):
@@ -59,6 +61,10 @@ def access_path(fn, x, _seen=None, _depth=0):
         if PASS_THROUGH.search(c) and s["args"]:
             r, st = access_path(fn, s["args"][0], _seen, _depth + 1)
             return r, st + tuple(steps)
+        if PURE_GETTERS.search(c) and s["args"]:
+            # a pure getter of an immutable receiver: all calls denote the same value
+            r, st = access_path(fn, s["args"][0], _seen, _depth + 1)
+            return ("pure", c.split("::")[-1], path_key((r, st))), tuple(steps)
         return ("call", bi), tuple(steps)
     rv = s["rv"]
     k = rv["k"]
@@ -198,6 +204,10 @@ class Enumerator:
                         v = ("notcallres", a[1])
                     elif a and a[0] == "notcallres":
                         v = ("callres", a[1])
+                    elif a and a[0] == "eqtest":
+                        v = ("noteqtest",) + a[1:]
+                    elif a and a[0] == "noteqtest":
+                        v = ("eqtest",) + a[1:]
                 elif k == "discr":
                     key = self.key_of(rv["p"])
                     # value known from a propagated variant?
@@ -241,6 +251,9 @@ class Enumerator:
                     return  # diverges
                 if not t["dst"].get("p"):
                     st.vals[t["dst"]["l"]] = ("callres", bi)
+                    et = self._eq_test(st, t)
+                    if et is not None:
+                        st.vals[t["dst"]["l"]] = et
                 bi = t["t"]
                 continue
             if k == "switch":
@@ -303,10 +316,53 @@ class Enumerator:
                     st.disc[key] = cons
                     bi = bb
                     continue
+                if v and v[0] in ("eqtest", "noteqtest") and t["ty"] == "bool":
+                    _, key, enum, V = v
+                    neg = v[0] == "noteqtest"
+                    fl = ow
+                    for val, bb in targets:
+                        if val == 0:
+                            fl = bb
+                    tr = ow
+                    cur = st.disc.get(key)
+                    can_eq = cur is None or cur == V or (isinstance(cur, tuple) and V not in cur[1])
+                    can_ne = not (isinstance(cur, str) and cur == V)
+                    branches = []
+                    if can_eq:
+                        branches.append((V, fl if neg else tr))
+                    if can_ne:
+                        if isinstance(cur, str):
+                            cons = cur
+                        else:
+                            ex = cur[1] if isinstance(cur, tuple) else frozenset()
+                            cons = ("not", frozenset(ex | {V}))
+                        branches.append((cons, tr if neg else fl))
+                    for cons, bb in branches[:-1]:
+                        s2 = st.clone()
+                        s2.disc[key] = cons
+                        self._walk(bb, s2, out)
+                    if not branches:
+                        return
+                    cons, bb = branches[-1]
+                    st.disc[key] = cons
+                    bi = bb
+                    continue
                 if v and v[0] in ("callres", "notcallres") and t["ty"] == "bool":
                     cb = v[1]
                     neg = v[0] == "notcallres"
                     dec = st.decisions.get(cb)
+                    if dec is None:
+                        # pure predicates of an immutable receiver answer the same on every call
+                        ct = fn.blocks[cb]["term"]
+                        if PURE_PREDICATES.search(callee(ct)) and ct["args"]:
+                            pk = (callee(ct), path_key(access_path(fn, ct["args"][0])))
+                            for ob, od in st.decisions.items():
+                                ot = fn.blocks[ob]["term"]
+                                if ot["k"] == "call" and ot["args"] and \
+                                        (callee(ot), path_key(access_path(fn, ot["args"][0]))) == pk:
+                                    dec = od
+                                    st.decisions[cb] = dec
+                                    break
                     if dec is None and self.bool_oracle:
                         dec = self.bool_oracle(fn, cb, fn.blocks[cb]["term"], st)
                         if dec is not None:
@@ -345,6 +401,86 @@ class Enumerator:
                 bi = succs[-1]
                 continue
             return  # unreachable / resume / other
+
+    def _const_variant(self, st, o):
+        """variant name if operand `o` denotes a constant enum value (constant, promoted, fieldless aggregate)."""
+        fn = self.fn
+        if is_const(o):
+            if "variant" in o:
+                return o["variant"]
+            if "promoted" in o:
+                return self._promoted_variant(o["promoted"])
+            return None
+        v = self.val_of(st, o)
+        if v and v[0] == "variant":
+            return v[2]
+        p = op_place(o)
+        if p is None:
+            return None
+        # follow single defs: `_9 = &(*_17); _17 = promoted[1]`
+        seen = set()
+        l = p["l"]
+        while l not in seen:
+            seen.add(l)
+            vv = st.vals.get(l)
+            if vv and vv[0] == "variant":
+                return vv[2]
+            ds = fn.defs().get(l, [])
+            if len(ds) != 1 or ds[0][1] == "term":
+                return None
+            rv = ds[0][2]["rv"]
+            if rv["k"] == "use":
+                o2 = rv["o"]
+                if is_const(o2):
+                    if "variant" in o2:
+                        return o2["variant"]
+                    if "promoted" in o2:
+                        return self._promoted_variant(o2["promoted"])
+                    return None
+                l = op_place(o2)["l"]
+            elif rv["k"] == "ref":
+                l = rv["p"]["l"]
+            elif rv["k"] == "agg" and "adt" in rv and not rv["ops"]:
+                return rv["variant"]
+            else:
+                return None
+        return None
+
+    def _promoted_variant(self, idx):
+        try:
+            pb = self.fn.promoted[idx]
+        except IndexError:
+            return None
+        for blk in pb["blocks"]:
+            for s in blk["st"]:
+                if s["k"] == "assign" and s["rv"]["k"] == "agg" and "adt" in s["rv"] and not s["rv"]["ops"]:
+                    return s["rv"]["variant"]
+                if s["k"] == "assign" and s["rv"]["k"] == "use" and is_const(s["rv"]["o"]) and "variant" in s["rv"]["o"]:
+                    return s["rv"]["o"]["variant"]
+        return None
+
+    def _eq_test(self, st, t):
+        m = None
+        for c in (callee(t), t.get("fn") or "", t.get("rfn") or ""):
+            m = re.search(r"^<(.+) as std::cmp::PartialEq>::(eq|ne)$", c)
+            if m:
+                break
+        if not m or len(t["args"]) != 2:
+            return None
+        enum = m.group(1)
+        a = self.fn.prog.adt(enum, self.fn.crate)
+        if not a or a["kind"] != "enum":
+            return None
+        va = self._const_variant(st, t["args"][0])
+        vb = self._const_variant(st, t["args"][1])
+        if (va is None) == (vb is None):
+            return None
+        V = va if va is not None else vb
+        other = t["args"][1] if va is not None else t["args"][0]
+        if is_const(other):
+            return None
+        key = path_key(access_path(self.fn, other))
+        return ("noteqtest" if m.group(2) == "ne" else "eqtest", key, enum, V)
 
     def _set_callres(self, st, cb, val):
         for l, v in list(st.vals.items()):
